@@ -28,6 +28,12 @@ func main() {
 	switch cmd {
 	case "core-replay":
 		coreReplay(args)
+	case "sender-replay":
+		senderReplay(args)
+	case "sender-gen":
+		senderGen(args)
+	case "sender-stress":
+		senderStress(args)
 	default:
 		usage()
 	}
